@@ -83,11 +83,11 @@ type Master struct {
 	Latency      time.Duration                                        // agent latency before TASK_RUNNING / replies
 	LaunchScript func(t *SimTask) string                              // "running" | "failed" | "silent" | "" (= running)
 	CmdScript    func(t *SimTask, event string, cmdID string) Outcome // per target and transition event
-	HookScript   func(t *SimTask) (exit int, voluntary bool, respond bool)
-	KillScript   func(t *SimTask) string                 // "ack" | "silent" | "" (= ack)
-	OnCall       func(call *scheduler.Call) (status int) // gate/fail individual calls; 0 = default
-	Reconcile    bool                                    // answer RECONCILE (default true)
-	LaunchGate   func(taskID string)                     // if set: called before TASK_RUNNING is reported (waits until the core knows the task)
+	HookScript   func(t *SimTask) HookPlan                            // how the hook task triggered now behaves
+	KillScript   func(t *SimTask) string                              // "ack" | "silent" | "" (= ack)
+	OnCall       func(call *scheduler.Call) (status int)              // gate/fail individual calls; 0 = default
+	Reconcile    bool                                                 // answer RECONCILE (default true)
+	LaunchGate   func(taskID string)                                  // if set: called before TASK_RUNNING is reported (waits until the core knows the task)
 	subscribeN   int
 	closed       bool
 }
@@ -785,30 +785,57 @@ func (m *Master) transition(fw string, cmd *controlcommands.MesosCommand_Transit
 	return true
 }
 
+// HookPlan: what a triggered hook task does.
+type HookPlan struct {
+	Exit      int
+	Voluntary bool
+	Respond   bool // false: acknowledged, never (or late) terminating
+	LateMs    int
+	Early     bool
+}
+
 func (m *Master) triggerHook(fw string, cmd *controlcommands.MesosCommand_TriggerHook, tg controlcommands.MesosCommandTarget) {
 	t := m.Task(tg.TaskId.Value)
 	m.rec("MTriggerHook", "cmd", cmd.Id.String(), "task", tg.TaskId.Value, "env", cmd.EnvironmentId.String(), "known", t != nil)
 	if t == nil {
 		return
 	}
-	exit, voluntary, respond := 0, true, true
+	plan := HookPlan{Voluntary: true, Respond: true}
 	if m.HookScript != nil {
-		exit, voluntary, respond = m.HookScript(t)
+		plan = m.HookScript(t)
 	}
-	go func() {
-		time.Sleep(m.Latency / 5)
-		m.reply(t, controlcommands.NewMesosCommandResponse_TriggerHook(cmd, nil, t.ID))
-		if !respond {
-			return // the trigger is acknowledged but the hook process never ends: the core's hook timeout decides
-		}
-		time.Sleep(m.Latency / 5)
+	exit, voluntary := plan.Exit, plan.Voluntary
+	done := func(final bool) {
 		m.rec("MHookDone", "task", t.ID, "class", ShortClass(t.Name), "env", cmd.EnvironmentId.String(), "exit", exit, "voluntary", voluntary)
 		st := mesos.TASK_FINISHED
 		if exit != 0 {
 			st = mesos.TASK_FAILED
 		}
 		m.DeviceEvent(t.ID, "BASIC_TASK_TERMINATED", exit, voluntary, st)
-		m.setMesos(t.ID, st)
-		m.update(fw, t, st, nil, "")
+		if final {
+			m.setMesos(t.ID, st)
+			m.update(fw, t, st, nil, "")
+		}
+	}
+	go func() {
+		time.Sleep(m.Latency / 5)
+		if plan.Early && plan.Respond {
+			// a very short-lived hook: the process is gone before the executor has answered the trigger command
+			done(true)
+			time.Sleep(m.Latency / 5)
+			m.reply(t, controlcommands.NewMesosCommandResponse_TriggerHook(cmd, nil, t.ID))
+			return
+		}
+		m.reply(t, controlcommands.NewMesosCommandResponse_TriggerHook(cmd, nil, t.ID))
+		if !plan.Respond {
+			// the trigger is acknowledged but the hook process does not end in time: the core's hook timeout decides
+			if plan.LateMs > 0 {
+				time.Sleep(time.Duration(plan.LateMs) * time.Millisecond)
+				done(false) // it ends later: the executor reports the exit of the process, the task can be triggered again
+			}
+			return
+		}
+		time.Sleep(m.Latency / 5)
+		done(true)
 	}()
 }
